@@ -268,7 +268,7 @@ def run(rep, tier):
         rep.call(_sr.movemask_const, rep, prog, "C06.movemask-const")
         rep.call(_sr.float_alpha_unsaturated, rep, prog, "C06.float-unsaturated")
         rep.call(row_coverage.divide_every_chunk, rep, prog, "C06.divide-every-chunk",
-                 {"x86": 6, "x86-rayon": 6, "wasm": 1}.get(cfg, 0))
+                 {"x86": 12, "x86-rayon": 12, "wasm": 2}.get(cfg, 0))
         rep.call(type_tables.recip_table, rep, prog, "C06.recip-table")
         rep.call(type_tables.recip_table16, rep, prog, "C06.recip-table16")
         rep.call(type_tables.recip_table16, rep, prog, "C06.recip-table16")
